@@ -89,6 +89,11 @@ func (p *lproc) waitUp(c *http.Client, url string) (status int, ok bool) {
 		if err == nil {
 			_, _ = io.Copy(io.Discard, rs.Body)
 			rs.Body.Close()
+			// (an answer on that port while our own process has exited came from somebody else's server)
+			time.Sleep(30 * time.Millisecond)
+			if p.exited() {
+				return 0, false
+			}
 			return rs.StatusCode, true
 		}
 		time.Sleep(10 * time.Millisecond)
